@@ -96,13 +96,28 @@ func cmdFunc(args []string) int {
 		os.MkdirAll(work, 0o755)
 	}
 	rc := 0
+	type job struct {
+		k string
+		v func() *vc
+	}
+	var jobs []job
 	for _, k := range sortedKeys(e.contracts.funcs) {
 		fc := e.contracts.funcs[k]
 		if !strings.Contains(k, pat) || fc.assumed {
 			continue
 		}
+		jobs = append(jobs, job{k, func() *vc { return e.verify(fc, nil) }})
+	}
+	for _, l := range e.contracts.lemmas {
+		l := l
+		if strings.Contains("lemma."+l.name, pat) {
+			jobs = append(jobs, job{"lemma." + l.name, func() *vc { return e.verifyLemma(l) }})
+		}
+	}
+	for _, j := range jobs {
+		k := j.k
 		t0 := time.Now()
-		v := e.verify(fc, nil)
+		v := j.v()
 		fmt.Printf("== %s  (%d obligations, gen %.2fs)\n", k, len(v.obls), time.Since(t0).Seconds())
 		if v.unresolved {
 			fmt.Println("   UNRESOLVED (function not found)")
@@ -243,6 +258,22 @@ func cmdCheck(args []string) int {
 		ef.Notes = v.imprecise
 		ef.Inlined = sortedKeys(v.inlined)
 		evFuncs = append(evFuncs, ef)
+	}
+	for _, l := range e.contracts.lemmas {
+		if !hasProp(l.props, prop) {
+			continue
+		}
+		targets++
+		v := e.verifyLemma(l)
+		vcs = append(vcs, v)
+		for _, er := range v.errs {
+			genErrs = append(genErrs, v.fnName+": "+er)
+		}
+		for _, ob := range v.obls {
+			obs = append(obs, ob)
+			owner[ob] = v
+		}
+		evFuncs = append(evFuncs, evFunc{Name: "lemma " + l.name, Verified: true, Arith: map[bool]string{true: "bv", false: "int"}[l.bv], Obligations: len(v.obls)})
 	}
 	genS := time.Since(t0).Seconds() - loadS
 	ts := time.Now()
